@@ -134,6 +134,11 @@ func serixLeg(s *simrt.Sim, reencode bool) {
 				return
 			}
 			fr.st.accepted++
+			if !bytes.Equal(pristine, in) {
+				// "yields exactly b[:n]": with a decoder that rewrites the bytes it was given there are two b's, and the
+				// re-encoding can only equal one of them
+				s.Fail("canonical-decode", "decode-modifies-input:"+e.name+":"+kind, "validating Decode accepted a %s encoding (%s, n=%d) and changed the bytes it was given\nbefore: %x\nafter:  %x", e.name, desc, n, clip(pristine), clip(in))
+			}
 			checkReencode(s, e, kind, desc, pristine, n, dst, b, ref.marks, fr.class)
 			return
 		}
